@@ -238,6 +238,10 @@ pub struct Cfg {
     pub cache: u64,
     /// run the (expensive) per-step ownership / pin oracles
     pub deep_oracles: bool,
+    /// pages per record of redb's freed-page / allocated-page system tables (0 = redb's 400);
+    /// lowered so that small workloads cross the record boundary (hook verif_knobs)
+    #[serde(default)]
+    pub freed_chunk: u32,
 }
 
 #[derive(Clone, Debug, Serialize, Deserialize, PartialEq)]
